@@ -42,7 +42,11 @@ import CoxeterVerif.Lemmas.MeshIOXmlText
     (`export_no_mutation_needs_deepcopy`).
   * STL GEOMETRY over ℝ.  `stl_normals_outward`: for a planar convex face listed counter-clockwise about `n`, every
     printed facet normal `cross(t1−t0, t2−t1)` is a POSITIVE multiple of `n`; `stl_normals_sum` / `stl_fan_area`: the
-    facet normals add up to the face's (doubled) area vector and the facet areas to the face area.
+    facet normals add up to the face's (doubled) area vector and the facet areas to the face area;
+    `stl_facets_face_local`, `stl_corner_tokens_face_local`, `stl_normal_translation_invariant`: which corners, in which
+    order, with which normal is a function of the face cycle and its own corners only — no other vertex, no vertex
+    mean, no origin enters (a writer that re-orients facets against the vertex mean disagrees with the model on
+    non-star-shaped solids).
   * READERS REJECT WRONG COUNTS.  `declared_counts_*`: whatever text the OFF / PLY / VTK readers accept, its declared
     vertex and face counts (and the VTK size field) are the counts of the data returned; OBJ indices are 1-based
     (`0` is rejected) and in range; X3D faces are in range with ≥ 3 corners.
@@ -552,6 +556,59 @@ theorem stl_fan_area {n : V3 ℝ} (vs : Nat → V3 ℝ) (f : List Nat)
 example : V3.norm (newell2 squareZ2) = Scalar.sum ((stlFaceNormals (fun i => squareZ2.getD i V3.zero) [0, 1, 2, 3]).map V3.norm) := by
   simpa [squareZ2] using (stl_fan_area (n := ⟨0, 0, 1⟩) (fun i => squareZ2.getD i V3.zero) [0, 1, 2, 3]
     (by simpa [squareZ2] using squareZ2_convexCCW) (by decide) (by norm_num [V3.dot])).2
+
+/-! ### the facets of a face depend on that face alone -/
+
+/-- P1 (STL orientation is decided by the face cycle alone). The facets `to_stl` writes for a face `f` — which corners,
+    in which ORDER, and the printed normals `cross(t1−t0, t2−t1)` — are a function of the cycle `f` and of the
+    coordinates of the corners of `f` only: two vertex arrays that agree on the corners of `f` (whatever other vertices
+    the polyhedron has, convex or not, wherever their mean lies) give the same facets with the same orientation and the
+    same normals, for any scalar type.  Triangle `i` lists `(f₀, f_{i+1}, f_{i+2})` (`stl_fan_covers`): the direction
+    of the face cycle, never reversed.  (A writer that re-orients facets by looking at the vertex mean — seeded change
+    r3-C20-2 — is not this function: model/implementation disagreement on non-star-shaped solids.) -/
+theorem stl_facets_face_local {α : Type} [Scalar α] (vs vs' : Nat → V3 α) (f : List Nat)
+    (h : ∀ i ∈ f, vs i = vs' i) :
+    stlFaceNormals vs f = stlFaceNormals vs' f
+    ∧ (fan f).map (fun t => (vs t.1, vs t.2.1, vs t.2.2)) = (fan f).map (fun t => (vs' t.1, vs' t.2.1, vs' t.2.2)) := by
+  constructor
+  · unfold stlFaceNormals
+    apply List.map_congr_left
+    intro t ht
+    obtain ⟨h1, h2, h3⟩ := fan_mem ht
+    rw [h _ h1, h _ h2, h _ h3]
+  · apply List.map_congr_left
+    intro t ht
+    obtain ⟨h1, h2, h3⟩ := fan_mem ht
+    rw [h _ h1, h _ h2, h _ h3]
+
+/-- the same for the written text: the corner tokens of the facets of `f` are those of the face's own vertices -/
+theorem stl_corner_tokens_face_local (m m' : Mesh) (f : List Nat) (h : ∀ i ∈ f, vat m i = vat m' i) :
+    (fan f).map (fun t => (vat m t.1, vat m t.2.1, vat m t.2.2))
+      = (fan f).map (fun t => (vat m' t.1, vat m' t.2.1, vat m' t.2.2)) := by
+  apply List.map_congr_left
+  intro t ht
+  obtain ⟨h1, h2, h3⟩ := fan_mem ht
+  rw [h _ h1, h _ h2, h _ h3]
+
+example : stlFaceNormals (fun i => squareZ2.getD i V3.zero) [0, 1, 2]
+    = stlFaceNormals (fun i => (squareZ2 ++ [(⟨5, 5, -7⟩ : V3 ℝ)]).getD i V3.zero) [0, 1, 2] :=
+  (stl_facets_face_local _ _ [0, 1, 2] (by
+    intro i hi
+    simp only [List.mem_cons, List.not_mem_nil, or_false] at hi
+    rcases hi with rfl | rfl | rfl <;> simp [squareZ2])).1
+
+/-- P1 (STL normals do not depend on the placement). Translating the solid leaves every printed normal unchanged (over ℝ):
+    no reference point — origin, vertex mean, centroid — enters the orientation. -/
+theorem stl_normal_translation_invariant (a b c d : V3 ℝ) :
+    stlNormal (a + d) (b + d) (c + d) = stlNormal a b c := by
+  show V3.cross (V3.sub (V3.add b d) (V3.add a d)) (V3.sub (V3.add c d) (V3.add b d))
+    = V3.cross (V3.sub b a) (V3.sub c b)
+  simp only [V3.cross, V3.sub, V3.add]
+  refine v3_ext ?_ ?_ ?_ <;> (simp only []; ring)
+
+example : stlNormal ((⟨0, 0, 2⟩ : V3 ℝ) + ⟨-7, 3, -2⟩) (⟨1, 0, 2⟩ + ⟨-7, 3, -2⟩) (⟨1, 1, 2⟩ + ⟨-7, 3, -2⟩)
+    = stlNormal ⟨0, 0, 2⟩ ⟨1, 0, 2⟩ ⟨1, 1, 2⟩ :=
+  stl_normal_translation_invariant _ _ _ _
 
 /-! ### the readers reject wrong counts and indices (for ALL texts, not only the model writer's) -/
 
